@@ -42,7 +42,12 @@ Docs ==
              D("GET", <<"pa">>, FALSE, "", ""), D("RESP", <<"any">>, FALSE, "", "200") >>,  \* identical runs: reuse of one piece (and a duplicate interaction)
    d5 |-> << D("JSIGHT", <<"0.3">>, FALSE, "", ""),
              D("URL", <<"pai">>, FALSE, "", ""), D("GET", <<>>, FALSE, "", ""), D("Path", <<>>, FALSE, "pid", ""), D("RESP", <<"any">>, FALSE, "", "200"),
-             D("URL", <<"pci">>, FALSE, "", ""), D("GET", <<>>, FALSE, "", ""), D("Path", <<>>, FALSE, "pid", ""), D("RESP", <<"any">>, FALSE, "", "200") >>]
+             D("URL", <<"pci">>, FALSE, "", ""), D("GET", <<>>, FALSE, "", ""), D("Path", <<>>, FALSE, "pid", ""), D("RESP", <<"any">>, FALSE, "", "200") >>,
+   \* an explicit context of the includer around an implicit URL and a method with its own path (which must not leave the '(')
+   d6 |-> << D("JSIGHT", <<"0.3">>, FALSE, "", ""),
+             D("MACRO", <<"@m1">>, TRUE, "", ""), D("URL", <<"pa">>, FALSE, "", ""), D("GET", <<>>, FALSE, "", ""), D("RESP", <<"any">>, FALSE, "", "200"),
+             D("GET", <<"pb">>, FALSE, "", ""), D("RESP", <<"any">>, FALSE, "", "200"), CloseTok,
+             D("PASTE", <<"@m1">>, FALSE, "", "") >>]
              \* a method with its Path child, written identically under two resources: legal reuse of one piece
 
 FileNames == <<"a.jst", "b.jst", "c.jst">>
